@@ -659,6 +659,7 @@ package nutsdb
 //@   requires txOK(tx)
 //@   ensures[C12,C20] result != nil ==> samePending(tx)
 //@   ensures[C12] len(items) > 0 && old(refuses(tx, key)) ==> result != nil
+//@   ensures[C06,C13] !old(refuses(tx, key)) ==> result == nil
 //@   ensures[C06] result == nil ==> appended(tx, len(items)) &&
 //@        (forall j int :: 0 <= j && j < len(items) ==> entryIs(tx.pendingWrites[old(len(tx.pendingWrites)) + j], tx, bucket, key, items[j], DataSetFlag, DataStructureSet))
 //@   ensures pendingOK(tx)
@@ -668,6 +669,7 @@ package nutsdb
 //@   requires txOK(tx)
 //@   ensures[C12,C20] result != nil ==> samePending(tx)
 //@   ensures[C12] len(items) > 0 && old(refuses(tx, key)) ==> result != nil
+//@   ensures[C06,C13] !old(refuses(tx, key)) ==> result == nil
 //@   ensures[C06] result == nil ==> appended(tx, len(items)) &&
 //@        (forall j int :: 0 <= j && j < len(items) ==> entryIs(tx.pendingWrites[old(len(tx.pendingWrites)) + j], tx, bucket, key, items[j], DataDeleteFlag, DataStructureSet))
 //@   ensures pendingOK(tx)
@@ -761,6 +763,7 @@ package nutsdb
 //@   requires txOK(tx)
 //@   ensures[C12,C20] result != nil ==> samePending(tx)
 //@   ensures[C12,C20] old(tx.db) == nil ==> result == ErrTxClosed
+//@   ensures[C05,C13] !old(refuses(tx, key)) && !strContains(string(key), SeparatorForListKey) ==> result == nil
 //@   ensures[C05] result == nil ==> appended(tx, len(values)) && !strContains(string(key), SeparatorForListKey) &&
 //@        (forall j int :: 0 <= j && j < len(values) ==> entryIs(tx.pendingWrites[old(len(tx.pendingWrites)) + j], tx, bucket, key, values[j], DataRPushFlag, DataStructureList))
 //@   ensures pendingOK(tx)
@@ -770,6 +773,7 @@ package nutsdb
 //@   requires txOK(tx)
 //@   ensures[C12,C20] result != nil ==> samePending(tx)
 //@   ensures[C12,C20] old(tx.db) == nil ==> result == ErrTxClosed
+//@   ensures[C05,C13] !old(refuses(tx, key)) && !strContains(string(key), SeparatorForListKey) ==> result == nil
 //@   ensures[C05] result == nil ==> appended(tx, len(values)) && !strContains(string(key), SeparatorForListKey) &&
 //@        (forall j int :: 0 <= j && j < len(values) ==> entryIs(tx.pendingWrites[old(len(tx.pendingWrites)) + j], tx, bucket, key, values[j], DataLPushFlag, DataStructureList))
 //@   ensures pendingOK(tx)
